@@ -109,6 +109,19 @@ type Spec struct {
 	NFiles    int        `json:"nfiles"`
 	OneInvoke bool       `json:"one_invoke"` // all k*.go files passed to one generator invocation
 	Shape     string     `json:"shape"`
+	// MultiVarSets renders the named Sets of an injector in one multi-name var spec.
+	MultiVarSets bool `json:"multi_var_sets,omitempty"`
+	// Compose, if set, adds one more declaration file whose injector uses an injector GENERATED from an
+	// earlier file as a provider (engine B only: the package compiles only after that file was generated).
+	Compose *ComposeDef `json:"compose,omitempty"`
+}
+
+type ComposeDef struct {
+	File      string `json:"file"`      // e.g. k9.go
+	Outer     string `json:"outer"`     // name of the composing injector
+	Inner     string `json:"inner"`     // injector of an earlier file used as a provider
+	Wrapper   string `json:"wrapper"`   // provider taking the inner injector's result
+	Requested string `json:"requested"` // Go expression of the requested type
 }
 
 // Flatten lists the uses of an injector in declaration order (Sets expanded in place).
